@@ -390,7 +390,12 @@ def fallback_and_dispatch(rep):
     ok = None
     if rets:
         v = rets[-1].value
-        res_names = {norm(n.targets[0]) for c in calls.values() for n in [pm.get(c)] if isinstance(n, ast.Assign)}
+        def _assigned_to(c):
+            n = pm.get(c)
+            while isinstance(n, ast.IfExp):
+                n = pm.get(n)
+            return n if isinstance(n, ast.Assign) else None
+        res_names = {norm(_assigned_to(c).targets[0]) for c in calls.values() if _assigned_to(c) is not None}
         res = list(res_names)[0] if len(res_names) == 1 else "results"
         try:
             table = []
